@@ -265,8 +265,16 @@ def r3_memo_purity(ctx, res):
         raise AnalysisError('no local memo idiom found (ic.compute hypernym_cache expected)')
 
 
+def r4_no_shared_objects(ctx, res):
+    """no function hands out a module-level (or default-argument) mutable object that is then written into - the write
+    would persist across calls - and no two records built in one call share an object that is updated in place."""
+    from ..sharing import report
+    report(ctx, res, None, 'all')
+
+
 RULES = [
     ('C16-R1', r1_ont, 300),
     ('C16-R2', r2_no_hidden_state, 300),
     ('C16-R3', r3_memo_purity, 1),
+    ('C16-R4', r4_no_shared_objects, 10),
 ]
